@@ -32,6 +32,13 @@ pub fn mutate(data: &mut Vec<u8>, m: &str) -> Option<()> {
         }
     } else if let Some(h) = m.strip_prefix("app=") {
         data.extend_from_slice(&unhex(h)?);
+    } else if let Some(h) = m.strip_prefix("endhex=") {
+        // overwrite the last bytes (a signature, an authentication tag) with the given ones
+        let b = unhex(h)?;
+        if b.len() <= data.len() {
+            let n = data.len();
+            data[n - b.len()..].copy_from_slice(&b);
+        }
     } else {
         return None;
     }
